@@ -2,6 +2,12 @@
 import itertools
 from ..driver import Part
 from .. import common as C
+from .. import srctie
+import json
+
+REG_TIE_THEOREMS = ["sim_step", "sim_reach", "sim_reach_model", "sim_run", "C10_src_unique_live",
+                    "C10_src_getpid_iff_registered", "C10_src_one_winner_at_the_end", "C10_src_no_thread_blocks"]
+REG_TIE_DEPS = ["Registry.v", "RegistryProofs.v", "RegSrcSem.v"]
 
 COQ_FILES = ["Registry.v", "RegistryProofs.v", "RegistryExec.v", "RegistrySound.v", "RespawnExec.v", "RespawnSound.v", "PropsRegistry.v"]
 THEOREMS = ["C10_unique_live", "C10_getpid_iff_registered", "C10_one_winner", "C10_one_winner_at_the_end",
@@ -145,7 +151,16 @@ class RegSched(Part):
         return terms
 
     def extra_coverage(self, inputs, obs):
+        # translation tie (DESIGN.md 0.12): actor/registry.go is re-translated to LMini terms and the step-by-step
+        # simulation with Registry.v (ii) plus the transferred theorems are re-proved against those terms; information only
+        tie = srctie.translation_tie("regtie", "regtrans", "actor/registry.go", "RegSrc.v", "RegSrcProofs.v",
+                                     REG_TIE_THEOREMS, REG_TIE_DEPS, getattr(self, "_tier", "quick"))
+        n = srctie.note("C10", tie)
+        if n:
+            print(n, flush=True)
+        C.log("translation tie (registry): %s" % json.dumps(tie)[:800])
         return dict(
+            translation_tie=tie,
             schedules_enumerated=sum(o.get("executions", 1) for o in obs),
             states=sum(o.get("states", 0) for o in obs),
             transitions=sum(o.get("transitions", 0) for o in obs),
